@@ -5,7 +5,7 @@ from ..gen import Scenario, op, send
 
 ID = "C06"
 BUDGET = {"quick": 40, "thorough": 600}
-MAX_RUNS = {"quick": 1500, "thorough": 300000}
+MAX_RUNS = {"quick": 8000, "thorough": 300000}
 TECHNIQUE = "deterministic simulation with fault injection: scripted upstream outcomes (refuse, unreachable, black-hole, bad replies, death after reply), reference reply parsers on the raw client transcript, event-order check"
 RULE = ("plans: listener protocol (http, https, socks5 interactive/pipelined, socks5+auth, socks4/4a, quic) x outcome class (reachable, refused, "
         "unreachable, black-holed connect, DNS failure, upstream HTTP proxy says 403/407/503/garbage/closes mid-head, upstream SOCKS says no/closes, "
